@@ -81,9 +81,9 @@ type c14Case struct {
 	Spec   *protoSpec
 	Role   protocol.ProtocolRole
 	Target protocol.State
-	Kind   string          // slow | fast | untimed | initial | progress
+	Kind   string          // slow | fast | untimed | initial | progress | loop
 	Delta  time.Duration   // slow / fast: when the agency holder moves
-	Deltas []time.Duration // progress: delay before each step
+	Deltas []time.Duration // progress / loop: delay before each step
 	Picks  []int           // progress: which listed message to take at each step
 }
 
@@ -199,6 +199,18 @@ func pickMover(sp *protoSpec, sm protocol.StateMap, s protocol.State) (*wmsg, bo
 	return sp.mustBuild(sp.Kinds[perm[0]], 7), false
 }
 
+// selfLoopMsg returns a message the state map lists in s that leads back into s.
+func selfLoopMsg(sp *protoSpec, sm protocol.StateMap, s protocol.State, tag uint64) (*wmsg, bool) {
+	perm, _ := sp.splitKinds(sm, s)
+	for _, ki := range perm {
+		m := sp.mustBuild(sp.Kinds[ki], tag)
+		if next, _ := permits(sm, nil, s, m); statesEq(next, s) {
+			return m, true
+		}
+	}
+	return nil, false
+}
+
 func isTimeoutErr(err error) bool {
 	return err != nil && strings.Contains(strings.ToLower(err.Error()), "timeout")
 }
@@ -241,7 +253,7 @@ func attemptC14Case(c c14Case, probe *noiseProbe) (res c14Result) {
 	sp := c.Spec
 	var sm protocol.StateMap
 	switch c.Kind {
-	case "slow", "fast":
+	case "slow", "fast", "loop":
 		sm = scaledMap(sp.Map, func(s protocol.State) bool { return statesEq(s, c.Target) })
 	default:
 		sm = scaledMap(sp.Map, nil)
@@ -465,6 +477,69 @@ func attemptC14Case(c c14Case, probe *noiseProbe) (res c14Result) {
 		}
 		return c14Result{Verdict: "pass", Named: strings.Contains(terr.Error(), c.Target.Name)}
 
+	case "loop":
+		// the agency holder keeps sending a message that leads back into the timed
+		// state, each within 0.2T..0.5T of the previous one; the stay exceeds T.
+		// Every message restarts the limit, so no timeout may be reported while
+		// they keep coming; afterwards a stall must still time out.
+		last := enteredAt
+		for i, d := range c.Deltas {
+			m, ok := selfLoopMsg(sp, sm, s, uint64(100+i))
+			if !ok {
+				return discard("no_self_loop")
+			}
+			time.Sleep(time.Until(last.Add(d)))
+			n := len(r.snap().transitions())
+			if _, err := move(s, m); err != nil && len(r.snap().Errs) == 0 {
+				return discard("move_failed")
+			}
+			r.waitFor(2*time.Second, func() bool { return nTrans() > n || len(r.errs) > 0 })
+			snap := r.snap()
+			if v, bad := early(snap); bad {
+				v.What += fmt.Sprintf(" (self-loop message #%d of %d, %v after the state was first entered: the timer was not restarted by the message)", i+1, len(c.Deltas), time.Since(enteredAt))
+				return v
+			}
+			if len(snap.Errs) > 0 {
+				return discard("loop_ambiguous")
+			}
+			trs := snap.transitions()
+			if len(trs) <= n {
+				return discard("loop_stalled")
+			}
+			if trs[n].At.Sub(last) > c14T*8/10 {
+				return discard("loop_too_slow")
+			}
+			if !statesEq(trs[n].To, s) {
+				return discard("path_diverged")
+			}
+			last = trs[n].At
+		}
+		if last.Sub(enteredAt) < c14T*12/10 {
+			return discard("loop_stay_too_short")
+		}
+		// now the holder stalls: the timer must have been re-armed, not disabled
+		r.waitFor(20*c14T, func() bool { return len(r.errs) > 0 })
+		settle(time.Millisecond)
+		snap := r.snap()
+		if v, bad := early(snap); bad {
+			return v
+		}
+		for _, e := range snap.Errs {
+			if isTimeoutErr(e) {
+				if !r.waitDone(30 * time.Second) {
+					return c14Result{Verdict: "violation", Key: keyBase + "loop:not-stopped",
+						What: fmt.Sprintf("timeout error %q reported but DoneChan still open 30s later", e), Obj: obj(snap, nil)}
+				}
+				return c14Result{Verdict: "pass", Named: strings.Contains(e.Error(), c.Target.Name)}
+			}
+		}
+		if len(snap.Errs) > 0 {
+			return discard("other_error")
+		}
+		return c14Result{Verdict: "violation", LoadSensitive: true, Key: keyBase + "loop:no-timeout-after-stall",
+			What: fmt.Sprintf("after %d self-loop messages the agency holder stalled for %v in %s (timeout %v) and no timeout error was reported", len(c.Deltas), 20*c14T, c.Target, c14T),
+			Obj:  obj(snap, map[string]any{"goroutines": goroutineDump()})}
+
 	case "progress":
 		// every timed state has timeout T; each step comes after <= 0.5T
 		last := startAt
@@ -519,7 +594,7 @@ func attemptC14Case(c c14Case, probe *noiseProbe) (res c14Result) {
 
 func TestC14(t *testing.T) {
 	rec := evi.New(t, "C14", evi.Exploration,
-		"targets = every reachable state with agency of every exported state map x both roles (enumerated). The state map is copied and its timeouts scaled: T=150ms for the state(s) under test. Case kinds: slow (timed state, agency holder - raw peer or harness caller - moves after delta in [1.8T,2.5T]: a timeout error must be reported and the protocol must stop, the late message must not be processed), fast (delta in [0,0.5T]: no timeout error up to 1.6T after entry, i.e. also no stale timer), untimed (state without timeout reached quickly through states that all have timeout T: silence for 4T), initial (the initial state given timeout T: silence for 4T after Start), progress (all timed states T, 3-8 steps each after <= 0.5T: no timeout although the total exceeds T). client (a real protocol client - block-fetch, chain-sync, handshake, keep-alive, leios-*, local-state-query, local-tx-monitor, local-tx-submission, peer-sharing, local-message-*, message-submission - whose timeout option is set to T is walked into the state the option belongs to and the server stalls: the timeout must fire, not before 0.9T). First a sweep over all targets with deltas derived from the seed, then the client table, then rapid-drawn batches; 8 cases run concurrently. Scheduling-noise guard: times are measured (hook event time of the state entry, time of the error, time of the move) and a probe goroutine measures wake-up lateness; a verdict that noise could explain is discarded and counted, never reported. Sound-under-load rule: a timeout error less than 0.9T after the last state change is always a violation. Non-trivial = a slow or fast or progress case that reached a verdict; distinct by (map, role, state, kind, delta bucket of 10ms).")
+		"targets = every reachable state with agency of every exported state map x both roles (enumerated). The state map is copied and its timeouts scaled: T=150ms for the state(s) under test. Case kinds: slow (timed state, agency holder - raw peer or harness caller - moves after delta in [1.8T,2.5T]: a timeout error must be reported and the protocol must stop, the late message must not be processed), fast (delta in [0,0.5T]: no timeout error up to 1.6T after entry, i.e. also no stale timer), untimed (state without timeout reached quickly through states that all have timeout T: silence for 4T), initial (the initial state given timeout T: silence for 4T after Start), progress (all timed states T, 3-8 steps each after <= 0.5T: no timeout although the total exceeds T), loop (timed state with an edge back into itself, e.g. block-fetch Streaming/Block, in both roles so that the sender of the self-loop message is the raw peer or the harness caller: messages at gaps of 0.2T-0.5T for a stay of 1.6T-2.5T must not produce a timeout - each message restarts the limit - and a stall afterwards must still time out). client (a real protocol client - block-fetch, chain-sync, handshake, keep-alive, leios-*, local-state-query, local-tx-monitor, local-tx-submission, peer-sharing, local-message-*, message-submission - whose timeout option is set to T is walked into the state the option belongs to and the server stalls: the timeout must fire, not before 0.9T). First a sweep over all targets with deltas derived from the seed, then the client table, then rapid-drawn batches; 8 cases run concurrently. Scheduling-noise guard: times are measured (hook event time of the state entry, time of the error, time of the move) and a probe goroutine measures wake-up lateness; a verdict that noise could explain is discarded and counted, never reported. Sound-under-load rule: a timeout error less than 0.9T after the last state change is always a violation. Non-trivial = a slow or fast or progress case that reached a verdict; distinct by (map, role, state, kind, delta bucket of 10ms).")
 	defer rec.Finish()
 	rec.Assume("the verif tracer emits the transition event before the state loop arms the timer of the new state",
 		"Go timers never fire early",
@@ -549,10 +624,10 @@ func TestC14(t *testing.T) {
 				}
 			}
 			desc := fmt.Sprintf("%s/%s/%s/%s/%d", c.Spec.Name, roleName(c.Role), c.Target, c.Kind, c.Delta/(10*time.Millisecond))
-			if c.Kind == "progress" {
+			if c.Kind == "progress" || c.Kind == "loop" {
 				desc += fmt.Sprint(c.Picks, c.Deltas)
 			}
-			if c.Kind == "slow" || c.Kind == "fast" || c.Kind == "progress" {
+			if c.Kind == "slow" || c.Kind == "fast" || c.Kind == "progress" || c.Kind == "loop" {
 				rec.NonTrivial(desc, map[string]any{"protocol": c.Spec.Name, "role": roleName(c.Role), "state": c.Target.String(),
 					"kind": c.Kind, "delta": c.Delta.String(), "T": c14T.String(), "verdict": res.Verdict})
 			}
@@ -606,6 +681,37 @@ func TestC14(t *testing.T) {
 			sweep = append(sweep, c14Case{Spec: tg.Spec, Role: tg.Role, Target: tg.State, Kind: "untimed"})
 		}
 	}
+	// timed states with an edge back into themselves: both roles, so the sender
+	// of the self-loop message is the raw peer in one and the harness caller in the other
+	loopDeltas := func(u uint64) []time.Duration {
+		total := c14T*16/10 + time.Duration(u%uint64(c14T*9/10))
+		var ds []time.Duration
+		var sum time.Duration
+		for i := uint64(0); sum < total; i++ {
+			d := c14T/5 + time.Duration(mix(u, i)%uint64(c14T*3/10))
+			ds = append(ds, d)
+			sum += d
+		}
+		return ds
+	}
+	var loopTargets []c14Target
+	for i, tg := range targets {
+		if !tg.Timed {
+			continue
+		}
+		if _, ok := selfLoopMsg(tg.Spec, tg.Spec.Map, tg.State, 0); !ok {
+			continue
+		}
+		if _, ok := pathTo(tg.Spec, tg.State, true); !ok {
+			continue
+		}
+		loopTargets = append(loopTargets, tg)
+		for rep := uint64(0); rep < 3; rep++ {
+			sweep = append(sweep, c14Case{Spec: tg.Spec, Role: tg.Role, Target: tg.State, Kind: "loop",
+				Deltas: loopDeltas(mix(uint64(rec.Seed()), uint64(1000+i)+rep*7919))})
+		}
+	}
+	rec.SetExtra("n_loop_targets", len(loopTargets))
 	rec.SetExtra("n_targets", len(targets))
 	rec.SetExtra("n_sweep_cases", len(sweep))
 	const par = 8
@@ -687,7 +793,18 @@ func TestC14(t *testing.T) {
 		batch := make([]c14Case, par)
 		for i := range batch {
 			role := rapid.SampledFrom([]protocol.ProtocolRole{protocol.ProtocolRoleClient, protocol.ProtocolRoleServer}).Draw(rt, "role")
-			switch k := rapid.IntRange(0, 9).Draw(rt, "kind"); {
+			switch k := rapid.IntRange(0, 11).Draw(rt, "kind"); {
+			case k >= 10 && len(loopTargets) > 0:
+				tg := loopTargets[rapid.IntRange(0, len(loopTargets)-1).Draw(rt, "loopTarget")]
+				c := c14Case{Spec: tg.Spec, Role: tg.Role, Target: tg.State, Kind: "loop"}
+				total := time.Duration(rapid.Int64Range(int64(c14T*16/10), int64(c14T*25/10)).Draw(rt, "stay"))
+				var sum time.Duration
+				for sum < total {
+					d := time.Duration(rapid.Int64Range(int64(c14T/5), int64(c14T/2)).Draw(rt, "gap"))
+					c.Deltas = append(c.Deltas, d)
+					sum += d
+				}
+				batch[i] = c
 			case k < 4:
 				tg := timed[rapid.IntRange(0, len(timed)-1).Draw(rt, "target")]
 				batch[i] = c14Case{Spec: tg.Spec, Role: tg.Role, Target: tg.State, Kind: "slow",
